@@ -3,6 +3,13 @@
 // (duplicates, re-insertion); links stay mutually consistent; removed nodes carry no links.
 // Also provides read-only accessors for the timer harness (C01/C15).
 
+impl<T> PairingHeap<T> {
+    /// membership test for the harnesses: a node is in the heap iff it is the root or carries links
+    pub(crate) fn verif_contains(&self, node: &HeapNode<T>) -> bool {
+        self.root == Some(NonNull::from(node)) || !node.verif_unlinked()
+    }
+}
+
 impl<T> HeapNode<T> {
     pub(crate) fn verif_unlinked(&self) -> bool {
         self.parent.is_none() && self.prev.is_none() && self.next.is_none() && self.first_child.is_none()
